@@ -230,23 +230,23 @@ def r01_234(chk, cr):
         chk.ob("R01.3", CR, q, "the mask starts all-true over every generated image",
                mi is not None and call_name(mi.as_atom() or ()) == "numpy.ones" and "dtype=bool" in mi.key(), found=str(mi))
     if chk.want("R01.4"):
-        aug = [e for e in ev.events if e.kind == "aug" and e.loops]
-        st = [e for e in ev.events if e.kind == "store" and e.loops and e.target.as_atom()[1].key() == mask.key()]
-        chk.need(len(aug) == 1 and len(st) == 1, f"{q}: merge loop body not recognised")
-        a, s = aug[0], st[0]
+        from ..updates import updates_of
+        ups = [u for u in updates_of(ev) if u.loops]
+        acc = [u for u in ups if u.delta is not None and u.root.as_atom() and u.root.as_atom()[0] == "obj" and u.root.as_atom()[1] == "occupation"]
+        st = [u.event for u in ups if u.root.key() == mask.key()]
+        chk.need(len(acc) == 1 and len(st) == 1, f"{q}: merge loop body not recognised")
+        a, s = acc[0], st[0]
         loop = a.loops[-1]
         chk.ob("R01.4", CR, q, "the merge loop runs over the pairs of the distance matrix",
                loop.iter is not None and loop.iter.key() == "$dist.items()", found=str(loop.iter))
         pair = P.atom(("sub", P.atom(("sub", loop.iter, (loop.index,))), (P.const(0),)))
         ia = P.atom(("sub", pair, (P.const(0),)))
         ib = P.atom(("sub", pair, (P.const(1),)))
-        ta = a.target.as_atom()
-        dst = ta[2][0]
-        srcs = find_atoms(a.value, lambda t: t[0] == "sub" and t[1].key() == ta[1].key())
-        src = srcs[0][2][0] if len(srcs) == 1 else None
-        okdir = a.op == "Add" and dst.key() == ia.key() and src is not None and src.key() == ib.key()
+        dst = a.index[0]
+        want = P.atom(("sub", a.root, (ib,)))
+        okdir = dst.key() == ia.key() and a.delta == want
         chk.ob("R01.4", CR, q, "the survivor (first index of the pair) receives the absorbed site's occupancy", okdir,
-               expected="occ[i] += occ[j]", found=f"{a.target} {a.op} {a.value}")
+               expected="occ[i] += occ[j]", found=a.describe()[-160:])
         chk.ob("R01.4", CR, q, "exactly the absorbed site (second index) is masked out",
                s.value.key() == "False" and s.target.as_atom()[2][0].key() == ib.key(), found=f"{s.target} = {s.value}")
         strict = False
@@ -257,7 +257,8 @@ def r01_234(chk, cr):
             if ca and ca[0] == "le" and not pol and ca[1].key() == ib.key() and ca[2].key() == ia.key():
                 strict = True
         chk.ob("R01.4", CR, q, "only pairs with i strictly below j are merged (self pairs never mask a site)",
-               strict and a.guards == s.guards, found=[f"{'' if p else 'not '}{c}"[-80:] for c, p in a.guards][-1:])
+               strict and tuple((c.key(), p) for c, p in a.guards) == tuple((c.key(), p) for c, p in s.guards),
+               found=[f"{'' if p else 'not '}{c}"[-80:] for c, p in a.guards][-1:])
 
 
 def r01_5(chk, repo, cr):
